@@ -143,7 +143,7 @@ pub fn drive(tier: Tier) -> i32 {
                 // churn: every ruleset is built concurrently with all the others (barrier + tight loop on every thread) and evaluated
                 // back to back with the one whose construction started next
                 for (k, threads) in [(0u64, 16u64), (1, 48), (2, 16)] {
-                    let r = run_bin("native-churn", &bin, &[threads.to_string(), (tier.of(600u64, 3_000) * 16 / threads).max(50).to_string(), (seed + 20 + k).to_string(), "nojitter".into(), "churn".into()], &[]);
+                    let r = run_bin("native-churn", &bin, &[threads.to_string(), (tier.of(2_500u64, 6_000) * 16 / threads).max(50).to_string(), (seed + 20 + k).to_string(), "nojitter".into(), "churn".into()], &[]);
                     absorb(&mut m, &mut inconclusive, &mut runs, r, false);
                 }
             }
